@@ -149,6 +149,266 @@ fn c36_compressed_keeps_bang_comments() {
     assert!(p.pushed.get() == 1, "compressed: a comment starting with /*! is kept");
 }
 
+// ---- C16: which statements open a new variable scope, and which scope their
+// body runs in.  The arms of handle_item for @media, at-rules, @for, @while
+// and @each are extracted WITHOUT textual substitution: inside this module
+// the names `ScopeRef`, `handle_body` and `check_body` resolve to the
+// recording stand-ins below instead of the real ones (listed abstraction),
+// so each arm's own statements run and what they do with scopes is logged.
+pub(crate) mod scopeshape {
+    use super::super::BodyContext;
+    /// stand-in: the real selector context is a recursive structure CBMC
+    /// does not finish on; only "root selectors were asked for" matters here.
+    pub struct SelectorCtx;
+    impl SelectorCtx {
+        pub fn root() -> Self {
+            SelectorCtx
+        }
+    }
+
+    #[derive(Clone, Copy, PartialEq, Debug)]
+    pub enum Ev {
+        Sub { new: u8, parent: u8, selectors: bool },
+        Define { scope: u8, name: u8, value: u8 },
+        DefineMulti { scope: u8, value: u8 },
+        Store { scope: u8 },
+        Restore { scope: u8, token: u8 },
+        Cond { scope: u8 },
+        Body { scope: u8, dest: u8 },
+    }
+    pub struct Log {
+        ev: core::cell::Cell<[Option<Ev>; 12]>,
+        n: core::cell::Cell<usize>,
+        next: core::cell::Cell<u8>,
+    }
+    impl Log {
+        fn log(&self, e: Ev) {
+            let n = self.n.get();
+            if n < 12 {
+                let mut all = self.ev.get();
+                all[n] = Some(e);
+                self.ev.set(all);
+            }
+            self.n.set(n + 1);
+        }
+        pub fn logged(&self) -> usize {
+            self.n.get()
+        }
+        pub fn ev(&self, i: usize) -> Option<Ev> {
+            if i < 12 { self.ev.get()[i] } else { None }
+        }
+    }
+
+    #[derive(Clone)]
+    pub struct ScopeRef {
+        pub id: u8,
+        pub log: &'static Log,
+    }
+    impl ScopeRef {
+        pub fn outer() -> ScopeRef {
+            let log = Box::leak(Box::new(Log {
+                ev: core::cell::Cell::new([None; 12]),
+                n: core::cell::Cell::new(0),
+                next: core::cell::Cell::new(1),
+            }));
+            ScopeRef { id: 0, log }
+        }
+        fn fresh(parent: &ScopeRef, selectors: bool) -> ScopeRef {
+            let new = parent.log.next.get();
+            parent.log.next.set(new + 1);
+            parent.log.log(Ev::Sub { new, parent: parent.id, selectors });
+            ScopeRef { id: new, log: parent.log }
+        }
+        pub fn sub(parent: ScopeRef) -> ScopeRef {
+            Self::fresh(&parent, false)
+        }
+        pub fn sub_selectors<T>(parent: ScopeRef, _selectors: T) -> ScopeRef {
+            Self::fresh(&parent, true)
+        }
+        pub fn define(&self, name: u8, value: u8) -> Result<(), ()> {
+            self.log.log(Ev::Define { scope: self.id, name, value });
+            Ok(())
+        }
+        pub fn define_multi(&self, _names: &u8, value: u8) -> Result<(), ()> {
+            self.log.log(Ev::DefineMulti { scope: self.id, value });
+            Ok(())
+        }
+        pub fn store_local_values(&self, _names: &u8) -> Token {
+            self.log.log(Ev::Store { scope: self.id });
+            Token(77)
+        }
+        pub fn restore_local_values(&self, token: Token) {
+            self.log.log(Ev::Restore { scope: self.id, token: token.0 });
+        }
+    }
+    pub struct Token(u8);
+    /// Destination: identified by a number, so that "the body was written
+    /// to the new @media / at-rule block" can be stated.
+    pub struct Dest(pub u8);
+    impl Dest {
+        pub fn start_atrule(&mut self, _name: String, _args: u8) -> Dest {
+            Dest(self.0 + 1)
+        }
+    }
+    /// Condition / range / value-list stand-ins: evaluate in the given scope
+    /// (logged) and give harness-chosen results.
+    pub struct Cond(pub core::cell::Cell<u8>);
+    pub struct Truth(bool);
+    impl Truth {
+        pub fn is_true(&self) -> bool {
+            self.0
+        }
+    }
+    impl Cond {
+        /// true for the first n evaluations
+        pub fn evaluate(&self, scope: ScopeRef) -> Result<Truth, ()> {
+            scope.log.log(Ev::Cond { scope: scope.id });
+            let left = self.0.get();
+            if left > 0 {
+                self.0.set(left - 1);
+            }
+            Ok(Truth(left > 0))
+        }
+    }
+    pub struct Range2(pub [u8; 2]);
+    impl Range2 {
+        pub fn evaluate(&self, _scope: ScopeRef) -> Result<[u8; 2], ()> {
+            Ok(self.0)
+        }
+    }
+    pub struct Items2([u8; 2]);
+    impl Items2 {
+        pub fn iter_items(self) -> [u8; 2] {
+            self.0
+        }
+    }
+    pub struct Values2(pub [u8; 2]);
+    impl Values2 {
+        pub fn evaluate(&self, _scope: ScopeRef) -> Result<Items2, ()> {
+            Ok(Items2(self.0))
+        }
+    }
+    fn check_body(_body: &u8, _context: BodyContext) -> Result<(), ()> {
+        Ok(())
+    }
+    fn handle_body(_body: &u8, dest: &mut Dest, scope: ScopeRef, _file_context: ()) -> Result<(), ()> {
+        scope.log.log(Ev::Body { scope: scope.id, dest: dest.0 });
+        Ok(())
+    }
+
+//@range file=rsass/src/output/transform.rs fn=handle_item after="let mut atmedia = dest.start_atmedia(args.try_into()?);" until="\n        }"
+//@  header: pub fn snippet_media_scope(body: Option<&u8>, mut atmedia: Dest, scope: ScopeRef, file_context: ()) -> Result<(), ()>
+//@  tail: Ok(())
+//@end
+
+//@range file=rsass/src/output/transform.rs fn=handle_item from="let mut atrule = dest.start_atrule(name.clone(), args);" until="\n            } else {"
+//@  header: pub fn snippet_atrule_scope(name: String, args: u8, body: &u8, dest: &mut Dest, scope: ScopeRef, file_context: ()) -> Result<(), ()>
+//@  tail: Ok(())
+//@end
+
+//@range file=rsass/src/output/transform.rs fn=handle_item after="Item::For(name, range, body) => {" until="\n        }"
+//@  header: pub fn snippet_for_arm(name: &u8, range: &Range2, body: &u8, dest: &mut Dest, scope: ScopeRef, file_context: ()) -> Result<(), ()>
+//@  tail: Ok(())
+//@end
+
+//@range file=rsass/src/output/transform.rs fn=handle_item after="Item::While(cond, body) => {" until="\n        }"
+//@  header: pub fn snippet_while_arm(cond: &Cond, body: &u8, dest: &mut Dest, scope: ScopeRef, file_context: ()) -> Result<(), ()>
+//@  tail: Ok(())
+//@end
+
+//@range file=rsass/src/output/transform.rs fn=handle_item after="Item::Each(names, values, body) => {" until="\n        }"
+//@  header: pub fn snippet_each_arm(names: &u8, values: &Values2, body: &u8, dest: &mut Dest, scope: ScopeRef, file_context: ()) -> Result<(), ()>
+//@  tail: Ok(())
+//@end
+}
+use scopeshape::{Ev, ScopeRef as MockScope};
+
+/// C16: the body of `@media` runs in a NEW scope whose parent is the
+/// enclosing one (variables declared in it are local to the block), and is
+/// written to the @media block.
+#[kani::proof]
+#[kani::unwind(14)]
+fn c16_media_body_runs_in_a_new_sub_scope() {
+    let outer = MockScope::outer();
+    assert!(scopeshape::snippet_media_scope(Some(&0), scopeshape::Dest(5), outer.clone(), ()).is_ok());
+    assert!(outer.log.logged() == 2, "@media: one new scope, one body run");
+    assert!(outer.log.ev(0) == Some(Ev::Sub { new: 1, parent: 0, selectors: false }), "@media opens a sub scope of the enclosing scope");
+    assert!(outer.log.ev(1) == Some(Ev::Body { scope: 1, dest: 5 }), "@media: the body runs in the new scope");
+}
+/// C16: the body of an at-rule runs in a new scope (with root selectors for
+/// @keyframes), written to the at-rule's block.
+fn atrule_case(name: &str, keyframes: bool) {
+    let outer = MockScope::outer();
+    let mut dest = scopeshape::Dest(5);
+    assert!(scopeshape::snippet_atrule_scope(String::from(name), 0, &0, &mut dest, outer.clone(), ()).is_ok());
+    assert!(outer.log.logged() == 2, "at-rule: one new scope, one body run");
+    assert!(outer.log.ev(0) == Some(Ev::Sub { new: 1, parent: 0, selectors: keyframes }), "an at-rule opens a sub scope of the enclosing scope");
+    assert!(outer.log.ev(1) == Some(Ev::Body { scope: 1, dest: 6 }), "at-rule: the body runs in the new scope, inside the new block");
+}
+#[kani::proof]
+#[kani::unwind(14)]
+fn c16_atrule_body_runs_in_a_new_sub_scope() {
+    atrule_case("supports", false);
+}
+#[kani::proof]
+#[kani::unwind(14)]
+fn c16_keyframes_body_runs_in_a_new_sub_scope() {
+    atrule_case("keyframes", true);
+}
+/// C16: the `@for` variable is local to the loop body: each iteration gets a
+/// fresh sub scope of the enclosing one, the variable is defined THERE (not
+/// in the enclosing scope) and the body runs in it.
+#[kani::proof]
+#[kani::unwind(14)]
+fn c16_for_variable_is_local_to_each_iteration() {
+    let outer = MockScope::outer();
+    let mut dest = scopeshape::Dest(5);
+    let (a, b): (u8, u8) = (kani::any(), kani::any());
+    assert!(scopeshape::snippet_for_arm(&9, &scopeshape::Range2([a, b]), &0, &mut dest, outer.clone(), ()).is_ok());
+    assert!(outer.log.logged() == 6, "@for over two values: per value a new scope, a definition, a body run");
+    assert!(outer.log.ev(0) == Some(Ev::Sub { new: 1, parent: 0, selectors: false }));
+    assert!(outer.log.ev(1) == Some(Ev::Define { scope: 1, name: 9, value: a }), "@for defines its variable in the new scope");
+    assert!(outer.log.ev(2) == Some(Ev::Body { scope: 1, dest: 5 }), "@for: the body runs in the new scope");
+    assert!(outer.log.ev(3) == Some(Ev::Sub { new: 2, parent: 0, selectors: false }), "@for: the next iteration starts from the enclosing scope again");
+    assert!(outer.log.ev(4) == Some(Ev::Define { scope: 2, name: 9, value: b }));
+    assert!(outer.log.ev(5) == Some(Ev::Body { scope: 2, dest: 5 }));
+}
+/// C16: `@while` opens one sub scope; the condition and every run of the
+/// body use it.
+#[kani::proof]
+#[kani::unwind(14)]
+fn c16_while_body_and_condition_share_one_sub_scope() {
+    let outer = MockScope::outer();
+    let mut dest = scopeshape::Dest(5);
+    let cond = scopeshape::Cond(Cell::new(2));
+    assert!(scopeshape::snippet_while_arm(&cond, &0, &mut dest, outer.clone(), ()).is_ok());
+    assert!(outer.log.logged() == 6, "@while with two truthy conditions: one scope, three evaluations, two runs");
+    assert!(outer.log.ev(0) == Some(Ev::Sub { new: 1, parent: 0, selectors: false }));
+    assert!(outer.log.ev(1) == Some(Ev::Cond { scope: 1 }));
+    assert!(outer.log.ev(2) == Some(Ev::Body { scope: 1, dest: 5 }));
+    assert!(outer.log.ev(3) == Some(Ev::Cond { scope: 1 }));
+    assert!(outer.log.ev(4) == Some(Ev::Body { scope: 1, dest: 5 }));
+    assert!(outer.log.ev(5) == Some(Ev::Cond { scope: 1 }));
+}
+/// C16: `@each` saves the local values of its variables before the first
+/// iteration and restores exactly what it saved after the last one; the
+/// variables are set in, and the body runs in, the enclosing scope.
+#[kani::proof]
+#[kani::unwind(14)]
+fn c16_each_saves_and_restores_its_variables() {
+    let outer = MockScope::outer();
+    let mut dest = scopeshape::Dest(5);
+    let (a, b): (u8, u8) = (kani::any(), kani::any());
+    assert!(scopeshape::snippet_each_arm(&9, &scopeshape::Values2([a, b]), &0, &mut dest, outer.clone(), ()).is_ok());
+    assert!(outer.log.logged() == 6, "@each over two values: save, (set, run) x 2, restore");
+    assert!(outer.log.ev(0) == Some(Ev::Store { scope: 0 }), "@each saves the variables first");
+    assert!(outer.log.ev(1) == Some(Ev::DefineMulti { scope: 0, value: a }));
+    assert!(outer.log.ev(2) == Some(Ev::Body { scope: 0, dest: 5 }));
+    assert!(outer.log.ev(3) == Some(Ev::DefineMulti { scope: 0, value: b }));
+    assert!(outer.log.ev(4) == Some(Ev::Body { scope: 0, dest: 5 }));
+    assert!(outer.log.ev(5) == Some(Ev::Restore { scope: 0, token: 77 }), "@each restores what it saved, after the last iteration");
+}
+
 #[kani::proof]
 fn cover_transformfns() {
     let t: u8 = kani::any();
